@@ -90,7 +90,10 @@ def _case(draw):
     name = base + ext
     size = draw(st.one_of(st.sampled_from(SIZES), st.integers(0, 300)))
     return {"name": name, "ckind": draw(st.sampled_from(CKINDS)), "size": size, "seed": draw(st.integers(0, 10 ** 6)),
-            "inzip": draw(st.booleans()), "full": draw(st.booleans()), "sub": draw(st.booleans())}
+            "inzip": draw(st.booleans()), "full": draw(st.booleans()), "sub": draw(st.booleans()),
+            # the administrator's 'encoding' option in its documented "override the default entirely" form: only what it lists
+            # is an encoding then
+            "enc": draw(st.sampled_from([None, None, None, "minimal"]))}
 
 
 def strategy(tier):
@@ -353,7 +356,8 @@ def check_case(case, ctx):
         return []
     name, full, inzip = case["name"], case["full"], case["inzip"] and case["full"]
     data = _content(case["ckind"], case["size"], case["seed"])
-    cfg0 = drive.make_config("/x", "full" if full else "shipped")
+    over0 = {"pygopherd::encoding": "[('.bz2', 'bzip2'), ('.tal', 'tal.TALFileHandler')]"} if case.get("enc") == "minimal" else {}
+    cfg0 = drive.make_config("/x", "full" if full else "shipped", **over0)
     t, enc = mime.guess(cfg0, name)
     decomp = None
     istal = full and name.endswith(".tal")
@@ -382,7 +386,11 @@ def check_case(case, ctx):
     d, root = world.build(spec)
     fails = []
     try:
-        cfg = drive.make_config(root, "full" if full else "shipped")
+        over = {}
+        if case.get("enc") == "minimal":
+            over["pygopherd::encoding"] = "[('.bz2', 'bzip2'), ('.tal', 'tal.TALFileHandler')]"
+            ctx.label("encoding-option:minimal")
+        cfg = drive.make_config(root, "full" if full else "shipped", **over)
         want_type = mime.served_type(cfg, name, decompress=bool(decomp))
         if istal:
             want_type = t or cfg.get("GopherEntry", "defaultmimetype")
